@@ -162,7 +162,7 @@ PROPS = {
         "module": "GtfsVerif.Props.C20",
         "trusted_base": JOURNAL_TB + ["modelled, differentially validated byte for byte: text/template rendering of trips.csv.tmpl and stop_times.csv.tmpl as Gtfs.Journal.tripsCsv / stopTimesCsv",
                                       "read-back in the theorems is splitting at LF then at commas; that this coincides with encoding/csv on quote-free, CR-free text is checked by the oracle, which reads every export back with encoding/csv"],
-        "partial": ["a stop-time row whose seven cells were all empty cannot occur (trip_uid and last_observed are never empty)"],
+        "partial": ["a stop-time row whose seven cells were all empty cannot occur (last_observed is a decimal number, never empty; the trip's UID may be empty in a journal that was not built by BuildJournal, and such journals are generated)"],
         "assumptions": [],
     },
     "C14": {
